@@ -1,7 +1,9 @@
 (* Model/Lease.v — lease-file persistence of the DHCPv4 server
    (handlers/dhcp4_spoofer/subnet_lease.go: newSubnet, loadByteArray, saveConfig;
    dhcp4.go: Config.New, configChanged), at the level of the parsed YAML document.
-   Mirrors the Go code statement by statement, defects included.  Executable; no proofs here. *)
+   Mirrors the Go code statement by statement (as repaired by the three fix commits of DESIGN 11 #23:
+   nil-subnet guard, IPv4-only LAN, temp file + rename), remaining defects included.
+   Executable; no proofs here. *)
 From PV Require Import Base.Prelude Model.LeaseBase.
 Open Scope N_scope.
 
@@ -22,9 +24,9 @@ Record subnet : Type := { n_cfg : subnetcfg; n_bcast : addr }.
 
 Definition four_hours : Z := (4 * 3600 * 1000000000)%Z.
 
-(* newSubnet (subnet_lease.go:41) *)
+(* newSubnet (subnet_lease.go:41), after the repair that rejects non-IPv4 prefixes *)
 Definition newSubnet (c : subnetcfg) : res subnet :=
-  if negb (pvalid (s_lan c)) then Err EOther                         (* !config.LAN.IsValid() *)
+  if negb (pvalid (s_lan c)) || negb (is4 (paddr (s_lan c))) then Err EOther   (* !LAN.IsValid() || !LAN.Addr().Is4() *)
   else match s_lan c with
   | P (A4 n) b =>
       let base := mask4 b n in
@@ -41,10 +43,7 @@ Definition newSubnet (c : subnetcfg) : res subnet :=
       else Ok {| n_cfg := {| s_lan := lan; s_gw := s_gw c; s_dhcp := s_dhcp c; s_dns := s_dns c;
                               s_first := first; s_dur := dur; s_stage := s_stage c |};
                  n_bcast := bcast |}
-  | _ =>
-      (* a valid IPv6 (or IPv4-mapped) prefix: subnet.LAN.Addr().As4() panics, or
-         net.CIDRMask(bits > 32, 32) is nil and indexing it panics *)
-      Panic
+  | _ => Err EOther   (* not reached: the guard above *)
   end.
 
 (* ---------------------------------------------------------------- *)
@@ -78,29 +77,19 @@ Record doc : Type := { d_net1 : option subnetcfg; d_net2 : option subnetcfg; d_l
 (* the session as far as loadByteArray looks at it: IsCaptured(mac) *)
 Definition sess := bytes -> bool.
 
-(* loop of loadByteArray (subnet_lease.go:204-234) *)
-Fixpoint load_loop (captured : sess) (n1 n2 : option subnet) (rs : list lease_rec) (tt : table) : res table :=
+(* loop of loadByteArray (subnet_lease.go:209-239); both subnets are present (guard before the loop) *)
+Fixpoint load_loop (captured : sess) (s1 s2 : subnet) (rs : list lease_rec) (tt : table) : table :=
   match rs with
-  | [] => Ok tt
+  | [] => tt
   | v :: rest =>
-      if negb (r_state v =? 2)%Z then load_loop captured n1 n2 rest tt          (* invalid state: continue *)
-      else if negb (avalid (r_ip v)) then load_loop captured n1 n2 rest tt     (* !IsValid() short-circuits *)
-      else match n1 with
-      | None => Panic                                                         (* net1.LAN with net1 == nil *)
-      | Some s1 =>
-          if negb (contains (s_lan (n_cfg s1)) (r_ip v)) then load_loop captured n1 n2 rest tt
-          else match r_cid v with
-          | [] => load_loop captured n1 n2 rest tt                            (* invalid clientID *)
-          | _ =>
-              if captured (r_mac v) then
-                match n2 with
-                | None => Panic                                               (* net2.LAN with net2 == nil *)
-                | Some s2 =>
-                    let sub := if contains (s_lan (n_cfg s2)) (r_ip v) then 2 else 1 in
-                    load_loop captured n1 n2 rest (tinsert {| l_rec := v; l_sub := sub |} tt)
-                end
-              else load_loop captured n1 n2 rest (tinsert {| l_rec := v; l_sub := 1 |} tt)
-          end
+      if negb (r_state v =? 2)%Z then load_loop captured s1 s2 rest tt           (* invalid state: continue *)
+      else if negb (avalid (r_ip v)) || negb (contains (s_lan (n_cfg s1)) (r_ip v))
+      then load_loop captured s1 s2 rest tt                                      (* invalid LAN *)
+      else match r_cid v with
+      | [] => load_loop captured s1 s2 rest tt                                   (* invalid clientID *)
+      | _ =>
+          let sub := if captured (r_mac v) then (if contains (s_lan (n_cfg s2)) (r_ip v) then 2 else 1) else 1 in
+          load_loop captured s1 s2 rest (tinsert {| l_rec := v; l_sub := sub |} tt)
       end
   end.
 
@@ -111,11 +100,13 @@ Definition opt_subnet (o : option subnetcfg) : res (option subnet) :=
   end.
 
 (* loadByteArray after a successful yaml.Unmarshal *)
-Definition load (captured : sess) (d : doc) : res (option subnet * option subnet * table) :=
+Definition load (captured : sess) (d : doc) : res (subnet * subnet * table) :=
   (n1 <- opt_subnet (d_net1 d) ;;
    n2 <- opt_subnet (d_net2 d) ;;
-   t <- load_loop captured n1 n2 (d_leases d) [] ;;
-   Ok (n1, n2, t))%res.
+   match n1, n2 with
+   | Some s1, Some s2 => Ok (s1, s2, load_loop captured s1 s2 (d_leases d) [])
+   | _, _ => Err EOther                                   (* missing subnet configuration (repair of #23) *)
+   end)%res.
 
 (* saveConfig: the Allocated leases in map iteration order; [ord] is that order
    (a permutation of the table, universally quantified in the theorems). *)
@@ -169,7 +160,7 @@ Definition loadConfig (captured : sess) (i : input) : res (option subnet * optio
   match i with
   | NoFile => Ok (None, None, None)
   | ReadErr => Err EOther
-  | Doc d => ('(n1, n2, t) <- load captured d ;; Ok (n1, n2, Some t))%res
+  | Doc d => ('(n1, n2, t) <- load captured d ;; Ok (Some n1, Some n2, Some t))%res
   end.
 
 Definition new (c : cfg) (captured : sess) (i : input) : res dstate :=
@@ -177,7 +168,7 @@ Definition new (c : cfg) (captured : sess) (i : input) : res dstate :=
   else if negb (contains (c_home c) (paddr (c_netfilter c))) then Err EInvalidIP
   else
     match loadConfig captured i with
-    | Panic => Panic
+    | Panic => Panic          (* not reached: C18_new_total *)
     | Fuel => Fuel
     | Ok (Some n1, Some n2, Some t) =>
         if configChanged (homeSubnet c) (n_cfg n1) || configChanged (netfilterSubnet c) (n_cfg n2)
